@@ -3,6 +3,7 @@ import Liquid.Compare
 import Liquid.Lookup
 import Liquid.Filters.Str
 import Liquid.InsertionSort
+import Liquid.MapOrder
 /-!
 # Array filters (DESIGN §6 C15): compact concat join map reverse sort sort_natural first last uniq
 
@@ -55,8 +56,10 @@ stable* — but `pdqsort` begins with `if length <= 12 { insertionSort(data, a, 
 Go keeps the first occurrence of each class of equal elements; equality is Go's `==` on the
 interface values for hashable kinds (through a `map[any]bool`) and `==`/`reflect.DeepEqual`
 otherwise — in every case "same dynamic type and same contents". The line-protocol encoding
-`GoVal.enc` spells exactly the dynamic type and the contents, so two model values are equal for
-`uniq` iff their encodings are equal (`1` and `1.0`, `int8 1` and `int 1` are different).
+`GoVal.enc` spells exactly the dynamic type and the contents, with the entries of a map in the order
+the value holds them; `MapOrder.canonEnc` is the encoding with every map in the codec's canonical
+order, so two model values are equal for `uniq` iff their canonical encodings are equal (`1` and
+`1.0`, `int8 1` and `int 1` are different; two maps with the same entries are the same).
 Pointer identity is not in the model: an element containing a non-nil pointer is `unmodelled`.
 -/
 
@@ -182,9 +185,9 @@ def uniqOn {α κ : Type} [BEq κ] (key : α → κ) : List κ → List α → L
     else x :: uniqOn key (key x :: seen) xs
 
 /-- Go equality of two elements (see the header): same dynamic type, same contents -/
-def same (a b : GoVal) : Bool := a.enc == b.enc
+def same (a b : GoVal) : Bool := MapOrder.canonEnc a == MapOrder.canonEnc b
 
-def uniqF (xs : List GoVal) : List GoVal := uniqOn GoVal.enc [] xs
+def uniqF (xs : List GoVal) : List GoVal := uniqOn MapOrder.canonEnc [] xs
 
 def uniq : List GoVal → R GoVal
   | [.slice .any xs] =>
@@ -273,7 +276,7 @@ def homogBy (key : Bytes) (xs : List GoVal) : Bool :=
 
 /-- are there two adjacent elements of a sorted list that are tied but distinguishable? -/
 def tiesVisible (le : GoVal → GoVal → Bool) : List GoVal → Bool
-  | a :: b :: rest => (le b a && a.enc != b.enc) || tiesVisible le (b :: rest)
+  | a :: b :: rest => (le b a && MapOrder.canonEnc a != MapOrder.canonEnc b) || tiesVisible le (b :: rest)
   | _ => false
 
 /-- the verbatim result is comparable with Go's: at most 12 elements (insertion sort, modelled
@@ -349,7 +352,7 @@ def textLt (p q : Bytes × GoVal) : Bool := Cmp.bytesLt p.1 q.1
 def textLe (p q : Bytes × GoVal) : Bool := !textLt q p
 
 def tiesVisibleT : List (Bytes × GoVal) → Bool
-  | a :: b :: rest => (textLe b a && a.2.enc != b.2.enc) || tiesVisibleT (b :: rest)
+  | a :: b :: rest => (textLe b a && MapOrder.canonEnc a.2 != MapOrder.canonEnc b.2) || tiesVisibleT (b :: rest)
   | _ => false
 
 /-- `sort.Sort(keySortable{result, f})`: exactly Go's list up to 12 elements (the sort texts are
@@ -412,7 +415,7 @@ def canonKey (v : GoVal) : String :=
   | _ => "?"
 
 def canonForm (keys : List String) (ys : List GoVal) : String :=
-  "ok K:" ++ ",".intercalate keys ++ " M:" ++ ",".intercalate ((ys.map GoVal.enc).mergeSort (fun a b => decide (a ≤ b)))
+  "ok K:" ++ ",".intercalate keys ++ " M:" ++ ",".intercalate ((ys.map MapOrder.canonEnc).mergeSort (fun a b => decide (a ≤ b)))
 
 def textKeys (f : GoVal → R Bytes) (ys : List GoVal) : R (List String) :=
   (decorate f ys).bind fun ds => .ok (ds.map fun d => "s" ++ hexEncode d.1)
@@ -426,7 +429,7 @@ def runSortc (table : List (Bytes × FilterImpl)) (name : Bytes) (recv : GoVal) 
   | .panic _ => "panic"
   | .unmodelled w => "unmodelled " ++ w
   | .ok (.slice .any ys) =>
-    if ys.length ≤ maxInsertion then "ok " ++ (GoVal.slice .any ys).enc else
+    if ys.length ≤ maxInsertion then "ok " ++ MapOrder.canonEnc (GoVal.slice .any ys) else
     let key : GoVal := (args.map viaValue).headD .nil
     let keys : R (List String) :=
       if name == bn "sort" then
